@@ -986,8 +986,14 @@ class StateWorld(Run):
     def _a_ctake(self, op):
         if op["circ"] not in self.circs:
             raise Skip()
-        self._take_item(self.circs[op["circ"]], op["item"])
-        return len(self.circs[op["circ"]]["prog"])
+        c = self.circs[op["circ"]]
+        self._take_item(c, op["item"])
+        if c.get("compiled"):
+            # documented: compiled information is not updated by later additions; until the
+            # next compile() the circuit is *stale* and its runs are environment steps (5.5)
+            c["stale"] = True
+            self.probes["take_after_compile(stale)"] += 1
+        return len(c["prog"])
 
     def _a_ccompile(self, op):
         if op["circ"] not in self.circs:
@@ -997,6 +1003,8 @@ class StateWorld(Run):
             raise Skip()  # random gates cannot be compiled
         try:
             c["obj"].compile()
+            c["compiled"] = True
+            c["stale"] = False
             self.stats["config:compiled"] += 1
         except Exception as e:
             if "c14" in self.flags:
@@ -1014,7 +1022,7 @@ class StateWorld(Run):
         c = self.circs[op["circ"]]
         circ = c["obj"]
         pre = self.model[name]
-        owned = "c14" in self.flags
+        owned = "c14" in self.flags and not c.get("stale")
         nm = sum(len(it["meas"]) for it in c["prog"] if "meas" in it)
         self._fair = op.get("fault") == "fair"
         self.stats["coin_force" if op.get("fault") == "force" else "coin_fair"] += 1
@@ -1098,7 +1106,7 @@ class StateWorld(Run):
         c = self.circs[op["circ"]]
         circ = c["obj"]
         pre = self.model[name]
-        owned = "c14" in self.flags
+        owned = "c14" in self.flags and not c.get("stale")
         nm = sum(len(it["meas"]) for it in c["prog"] if "meas" in it)
         kind = op["record"]
         if any(r is None and "gate" in it for it, r in zip(c["prog"], c["ref"])) and owned:
@@ -1109,6 +1117,8 @@ class StateWorld(Run):
         if kind in ("own", "none"):
             arg = None
             rec = c["last"]
+            if nm and rec is not None and len(rec) != nm:
+                raise Skip()  # measurements were added after the last forward run: the stored record is stale
         else:
             arg = list(op["values"])
             rec = arg
